@@ -110,11 +110,15 @@ func (g *sgen) depr() string {
 	if !g.f.Deprecations {
 		return ""
 	}
-	switch g.r.Intn(5) {
+	switch g.r.Intn(7) {
 	case 0:
 		return " @deprecated"
 	case 1:
 		return ` @deprecated(reason: "use \"other\" instead")`
+	case 2:
+		return ` @deprecated(reason: "")` // an empty reason is a reason of its own, not the default one
+	case 3:
+		return ` @deprecated(reason: "line\nbreak and unié")`
 	}
 	return ""
 }
@@ -217,7 +221,9 @@ func GenSchema(r *rand.Rand, f SchemaFeatures) string {
 		b.WriteString("}\n")
 	}
 	if f.Directives {
-		locs := []string{"FIELD_DEFINITION", "OBJECT", "FIELD", "ARGUMENT_DEFINITION", "INTERFACE", "UNION", "ENUM", "ENUM_VALUE", "INPUT_OBJECT", "INPUT_FIELD_DEFINITION", "SCALAR", "QUERY", "FRAGMENT_SPREAD"}
+		// every location of the specification
+		locs := []string{"FIELD_DEFINITION", "OBJECT", "FIELD", "ARGUMENT_DEFINITION", "INTERFACE", "UNION", "ENUM", "ENUM_VALUE", "INPUT_OBJECT", "INPUT_FIELD_DEFINITION", "SCALAR", "QUERY", "FRAGMENT_SPREAD",
+			"MUTATION", "SUBSCRIPTION", "FRAGMENT_DEFINITION", "INLINE_FRAGMENT", "VARIABLE_DEFINITION", "SCHEMA"}
 		for i := 0; i < 1+r.Intn(2); i++ {
 			g.desc("", fmt.Sprintf("directive d%d", i))
 			fmt.Fprintf(b, "directive @d%d", i)
